@@ -56,6 +56,19 @@ class Chooser:
         return None
 
 
+class OrderedDone(set):
+    """the `done` set returned by the controlled wait primitives: a real set whose ITERATION ORDER is a choice of the
+    explorer (the order in which a Python set of futures is iterated is arbitrary; both orders of a batch are explored)"""
+
+    def __init__(self, items):
+        items = list(items)
+        set.__init__(self, items)
+        self._order = items
+
+    def __iter__(self):
+        return iter(self._order)
+
+
 class StopRun(BaseException):
     pass
 
@@ -84,6 +97,7 @@ class Controller:
     # ---- events
     def ev(self, kind, **kw):
         self.steps += 1
+        self.spin_count = 0
         if self.steps > self.max_steps:
             raise StopRun("step bound exceeded (no termination)")
         e = dict(kind=kind, n=len(self.events), **kw)
@@ -183,6 +197,12 @@ class Controller:
             opts.append(tuple(ids))
         return opts
 
+    def _ordered(self, done, key):
+        items = sorted(done, key=key)
+        if self.ch.choose(2, "iteration order of the done batch"):
+            items.reverse()
+        return OrderedDone(items)
+
     # ---- concurrent.futures.wait
     def wait(self, running, return_when=ALL_COMPLETED, timeout=None):
         running = set(running)
@@ -201,7 +221,7 @@ class Controller:
             done.add(f)
             self.inflight["conc"].pop(f, None)
         self.ev("wait_return", wkind="conc", done=list(pick))
-        return done, running - done
+        return self._ordered(done, lambda f: by_id_inv[f]) if len(done) > 1 and (by_id_inv := {f: n for n, f in by_id.items()}) else done, running - done
 
     # ---- asyncio proxy
     def make_asyncio(ctrl):
@@ -256,17 +276,57 @@ class Controller:
                 for t in done:
                     ctrl.inflight["async"].pop(t, None)
                 ctrl.ev("wait_return", wkind="async", done=[ctrl.task_node.get(t) for t in done], spontaneous=bool(spontaneous))
-                return done, running - done
+                rest = running - set(done)
+                if len(done) > 1:
+                    done = ctrl._ordered(done, lambda t: ctrl.task_node.get(t) or "")
+                return done, rest
 
         return AsyncioProxy()
 
     # ---- install / run
     def run(self, fn):
         """run fn() (which calls into tawazi) with the scheduler primitives replaced"""
-        saved = (H.wait, H.ThreadPoolExecutor, H.asyncio)
+        from tawazi._dag.digraph import DiGraphEx
+
+        saved = (H.wait, H.ThreadPoolExecutor, H.asyncio, H.logger, H.wait_for_finished_nodes, H.wait_for_finished_nodes_async, DiGraphEx.__dict__.get("__len__"))
         H.wait = self.wait
         H.ThreadPoolExecutor = self.make_executor_class()
         H.asyncio = self.make_asyncio()
+        # watchdog (C09): a scheduler that spins without reaching any controlled primitive (no dispatch, no blocking
+        # wait, no node entry) is stopped: its loop necessarily goes through len(graph), the wait helpers or the logger
+        ctrl = self
+        self.spin_count = 0
+
+        def tick():
+            ctrl.spin_count += 1
+            if ctrl.spin_count > 20000:
+                raise StopRun("the scheduler spins without dispatching or waiting for anything (no progress)")
+
+        class _Log:
+            def __getattr__(self, name):
+                def m(*a, **k):
+                    tick()
+
+                return m
+
+        w_sync, w_async = H.wait_for_finished_nodes, H.wait_for_finished_nodes_async
+
+        def wfn(*a, **k):
+            tick()
+            return w_sync(*a, **k)
+
+        async def wfna(*a, **k):
+            tick()
+            return await w_async(*a, **k)
+
+        import networkx as _nx
+
+        def glen(g):
+            tick()
+            return _nx.DiGraph.__len__(g)
+
+        H.logger, H.wait_for_finished_nodes, H.wait_for_finished_nodes_async = _Log(), wfn, wfna
+        DiGraphEx.__len__ = glen
         self.sched_thread = threading.get_ident()
         try:
             try:
@@ -276,7 +336,11 @@ class Controller:
             except BaseException as e:  # noqa: BLE001
                 return ("raise", e)
         finally:
-            H.wait, H.ThreadPoolExecutor, H.asyncio = saved
+            H.wait, H.ThreadPoolExecutor, H.asyncio, H.logger, H.wait_for_finished_nodes, H.wait_for_finished_nodes_async = saved[:6]
+            if saved[6] is None:
+                del DiGraphEx.__len__
+            else:
+                DiGraphEx.__len__ = saved[6]
             # cancel what is left
             for t in list(self.inflight["async"]):
                 try:
